@@ -16,7 +16,7 @@ fn strategy() -> BoxedStrategy<FaultCase> {
         3 => (any::<u16>(), 0u8..5).prop_map(|(p, k)| Mutation::HugeLength(p, k)),
     ];
     let fault = (0u8..24, prop_oneof![1 => Just(Target::Event), 2 => any::<u16>().prop_map(Target::Response)], mutation).prop_map(|(at, target, mutation)| Fault { at, target, mutation });
-    let cfg = GenCfg { abortable: false, task_aborts: false, max_acts: 24, ..GenCfg::standard() };
+    let cfg = GenCfg { abortable: false, task_aborts: false, max_acts: 24, scale: false, ..GenCfg::standard() };
     (universe(cfg), any::<bool>(), prop::collection::vec(fault, 1..8)).prop_map(|(universe, json, faults)| FaultCase { universe, json, faults }).boxed()
 }
 
@@ -137,7 +137,7 @@ pub fn main(mode: Mode) {
                     std::process::exit(1);
                 }
             }
-            let outcome = vkit::run_prop(prop, vkit::workers_for(tier), tier.pick(2_000, 120_000), strategy, check);
+            let outcome = vkit::run_prop(prop, vkit::workers_for(tier), tier.pick(8_000, 200_000), strategy, check);
             stats.set_extra("max_bytes_allocated_while_handling_one_input", serde_json::json!(max_alloc.load(std::sync::atomic::Ordering::Relaxed)));
             let outcome = match outcome {
                 Outcome::Held if stats.distinct_nontrivial() < 2 => Outcome::Inconclusive("generator produced no non-trivial case".into()),
@@ -147,7 +147,7 @@ pub fn main(mode: Mode) {
                 Report {
                     prop,
                     tier,
-                    rule: "histories of <= 24 shell actions on the bincode or the JSON bridge with 1-7 malformed inputs injected at generated points, as an event or as the response to an outstanding request: random bytes (<= 300), or a truncated / extended / bit-flipped / byte-overwritten / length-corrupted variant of a valid encoding; each call runs under catch_unwind with a counting allocator (bound 16 MiB + 64 x input length); a typed twin core that never sees a rejected input (and loses the one request a rejected one-shot response was addressed to) must show the same effects, resolution results and view for the rest of the history; non-trivial = a mutated valid encoding arrived with >= 2 requests outstanding and >= 3 actions followed; distinct = distinct case",
+                    rule: "histories of <= 24 shell actions on the bincode or the JSON bridge with 1-7 malformed inputs injected at generated points, as an event or as the response to an outstanding request: random bytes (<= 300), or a truncated / extended / bit-flipped / byte-overwritten / length-corrupted variant of a valid encoding; each bridge call that sees such an input runs under catch_unwind with a counting allocator (bound 16 MiB + 16 x what the typed twin allocates for the value the input denotes; a single allocation above 1 GiB is refused, and the resulting abort is reported as a violation with the input in flight); a typed twin core that never sees a rejected input (and loses the one request a rejected one-shot response was addressed to) must show the same effects, resolution results and view for the rest of the history; non-trivial = a mutated valid encoding arrived with >= 2 requests outstanding and >= 3 actions followed; distinct = distinct case",
                     assumptions: vec![
                         "responses are addressed to outstanding ids (the documented precondition); unknown ids are decided by C02".into(),
                         "inputs are capped at 600 bytes because the test app's event type is recursive (bincode has no depth limit; not a crux property)".into(),
